@@ -1,8 +1,11 @@
 #!/bin/bash
 # usage: tools/try_seed.sh <seed dir name> <property id> [check args...]
 # applies seeded/<name>/patch.diff to /repo, runs the check, reverts. /repo must be clean (committed) before.
+# Holds an exclusive lock on /tmp/repo.lock while /repo is modified (tools/lcheck takes the shared side).
 set -u
 name=$1; pid=$2; shift 2
+exec 9>/tmp/repo.lock
+flock -x 9
 cd /repo || exit 9
 if [ -n "$(git status --porcelain --untracked-files=no)" ]; then echo "/repo not clean"; exit 9; fi
 git apply /verif/seeded/$name/patch.diff || { echo "patch does not apply"; exit 9; }
